@@ -102,16 +102,19 @@ RayGen(A) == RayGenOf(Reduce(A))
 (* Positive integer solutions of A x = 0, enumerated through the free coordinates: every     *)
 (* solution is determined by its free coordinates, so { x > 0 : Ax = 0, free coords <= B }   *)
 (* is computed exactly.  It contains every positive solution whose coordinates are all <= B. *)
-FreeAssignments(E, B) == [FreeCols(E) -> 1..B]
-Extend0(E, t) == Eager([j \in 1..NCols(E.M) |-> IF j \in DOMAIN t THEN t[j] ELSE 0])
-\* value of pivot coordinate j under free assignment t, or 0 when it is not a positive integer
-PivotValue(E, t, j) ==
-    LET i == PivotRow(E, j)
-        num == -Dot(E.M[i], Extend0(E, t))
-        den == E.M[i][j]
-    IN  IF Divides(den, num) THEN LET v == ExactDiv(num, den) IN IF v > 0 THEN v ELSE 0 ELSE 0
-SolutionOf(E, t) == Eager([j \in 1..NCols(E.M) |-> IF j \in DOMAIN t THEN t[j] ELSE PivotValue(E, t, j)])
-PosSolOf(E, B) == {x \in {SolutionOf(E, t) : t \in FreeAssignments(E, B)} : AllPositive(x)}
+\* pivot coordinate j of the solution whose free coordinates are given by tt (0 elsewhere);
+\* 0 when that coordinate is not an integer
+PosSolOf(E, B) ==
+    LET n == NCols(E.M)
+        fc == FreeCols(E)
+        prow == Eager([j \in 1..n |-> IF j \in fc THEN 0 ELSE PivotRow(E, j)])
+        Val(tt, j) == LET i == prow[j]
+                          num == -Dot(E.M[i], tt)
+                          den == E.M[i][j]
+                      IN  IF Divides(den, num) THEN ExactDiv(num, den) ELSE 0
+        Sol(t) == LET tt == Eager([j \in 1..n |-> IF j \in fc THEN t[j] ELSE 0])
+                  IN  Eager([j \in 1..n |-> IF j \in fc THEN t[j] ELSE Val(tt, j)])
+    IN  {x \in {Sol(t) : t \in [fc -> 1..B]} : AllPositive(x)}
 PosSol(A, B) == PosSolOf(Reduce(A), B)
 MinSumOver(S) == Min({VecSum(x) : x \in S})
 \* every positive solution of sum <= s has all coordinates <= s - (n - 1)
@@ -122,6 +125,8 @@ PosSolUpToSum(E, s) ==
 RECURSIVE IPowCapped(_, _, _)
 IPowCapped(b, e, cap) == IF e = 0 THEN 1 ELSE LET p == IPowCapped(b, e - 1, cap) IN IF p > cap THEN p ELSE b * p
 SearchSize(E, b) == IPowCapped(IF b < 1 THEN 1 ELSE b, Cardinality(FreeCols(E)), 1000000)
+\* the largest box b <= B whose search visits at most cap assignments (at least 1)
+BoxWithin(E, B, cap) == Max({b \in 1..B : b = 1 \/ SearchSize(E, b) <= cap})
 
 (* ---------------------------------------------------------------------------------------- *)
 (* Stiemke's alternative: exactly one of  (i) A x = 0 has a solution x > 0,                  *)
